@@ -41,6 +41,38 @@ def class_consts(prog, chk, rule):
     return out
 
 
+def abs_window(o, body):
+    """the absolute byte window [lo, hi) of the `dest` parameter that a nest of constant sub-slicings denotes (None if the
+    origin is anything else)"""
+    from mir import strip, const_int
+    o = strip(o)
+    if o.k == "param":
+        nm = body.locals[o.a[0]]["name"] if isinstance(o.a[0], int) else o.a[0]
+        return (0, None) if nm == "dest" else None
+    if o.k == "call" and re.search(r"Index(Mut)?<std::ops::(Range|RangeTo|RangeFrom|RangeFull)<usize>> for \[u8\]>::index(_mut)?$", o.a[0]):
+        base = abs_window(o.a[2][0], body)
+        if base is None:
+            return None
+        r = strip(o.a[2][1])
+        kind = re.search(r"ops::(Range|RangeTo|RangeFrom|RangeFull)<", o.a[0]).group(1)
+        vals = [const_int(x) for x in r.a[1]] if r.k == "agg" else []
+        if any(v is None for v in vals):
+            return None
+        lo, hi = base
+        if kind == "Range" and len(vals) == 2:
+            return (lo + vals[0], lo + vals[1])
+        if kind == "RangeTo" and len(vals) == 1:
+            return (lo, lo + vals[0])
+        if kind == "RangeFrom" and len(vals) == 1:
+            return (lo + vals[0], hi)
+        if kind == "RangeFull":
+            return base
+        return None
+    if o.k in ("deref", "ref", "reborrow", "cast") and o.a:
+        return abs_window(o.a[-1] if o.k == "cast" else o.a[0], body)
+    return None
+
+
 def run(prog, chk, tier):
     chk.explanation = (
         "Bit-provenance summaries (one abstract pass per function over the expression term extracted from MIR; every output bit "
@@ -184,7 +216,7 @@ def run(prog, chk, tier):
             want = [("v", "tid", i) for i in range(96)] + const_bits(COOKIE, 32)
             chk.ob(rule, "MessageBuilder::write_into: word = cookie 0x2112A442 in bits 96-127, transaction id in bits 0-95", bits == want,
                    short_span(t["span"]), detail=show_bits(bits)[-200:] if bits else repr(val)[:300])
-            okd = pm(dest, ("call", r"IndexMut<std::ops::Range<usize>> for \[u8\]>::index_mut$", [("param", "dest"), ("agg", r"Range::Range$", [("const", 4), ("const", 20)])]), wb)
+            okd = abs_window(dest, wb) == (4, 20)
             chk.ob(rule, "MessageBuilder::write_into: written big-endian at dest[4..20]", okd, short_span(t["span"]), detail=repr(dest)[:200])
     chk.ob(rule, "MessageBuilder::write_into writes the 128-bit cookie||id word", found, wb.loc())
     # readers
